@@ -9,12 +9,14 @@ RULE = ('random (pipe, data, model) decompositions with pipe*data*model ≤ 12, 
         'one reference layer, bias on/off, 2-d and 3-d activations, bucketed or not, pre-division, 1–3 steps with '
         'update intervals, perturbed schedules; every rank\'s gradient shards and the inverse workers\' factors are '
         'compared with the unsharded float64 reference; data-parallel replicas / model-parallel peers compared with '
-        'each other; the trace matcher checks matching collectives; clipping: pipe=model=1 must match the reference, '
+        'each other; every rank\'s issued collectives (kind, members, element count, root) are compared exactly, in order, '
+        'with the projection of the global script of the Lean model KV.NeoxS; the trace matcher checks matching collectives; clipping: pipe=model=1 must match the reference, '
         'model>1 or pipe>1 with active clipping is known finding F1; non-trivial = model-parallel degree > 1')
 TRUSTED = [
     'Lean 4.33 kernel; axioms audited ⊆ {propext, Classical.choice, Quot.sound}',
     'hand-written model KV.NeoxLayer (gather/split/scatter along the sharded dimension, factor shapes, reduction groups) '
-    'and KV.Neox (assignment, C12)',
+    'and KV.Neox (assignment, C12); KV.NeoxS (global script of the collectives of the GPT-NeoX path: hooks, step, '
+    'preconditioned_grad, bucketing) tied to kfac/gpt_neox/layer.py, mpu.py, base_preconditioner.py by exact trace comparison',
     'DeepSpeed is NOT installed: topology stub; Megatron Column/RowParallelLinear are harness mocks holding one shard '
     'each whose forward/backward use harness-side collectives (not recorded)',
     'simdist semantics of all_gather / reduce_scatter / broadcast; float32 eigh inside kfac (tolerance 5e-3)',
